@@ -439,3 +439,158 @@ func VP_C02_card_units() {
 		vpSolveCheck(pb, refs, n)
 	}
 }
+
+// ---- propagation fix-point lemma (class B): drive unifyLiteral with a
+// symbolic sequence of decisions from the state New builds ----
+
+var vpPairStructures = [][][]int{
+	{{1, 2, 3, 4}, {1, 2, 4}},
+	{{1, 2, 3, 4}, {2, 3, 4, 1}},
+	{{5, 2, 1, 3, 4}, {3, 1, 5}},
+	{{1, 2, 3}, {2, 3, 4}, {1, 4}},
+}
+
+// vpAllSatisfied: with every variable assigned and no conflict reported, every
+// constraint the solver holds must be satisfied (this is what soundness of a
+// Sat answer rests on, whatever the decision order).
+func vpAllSatisfied(s *Solver) {
+	check := func(c *Clause) {
+		sum := 0
+		for i := 0; i < c.Len(); i++ {
+			if s.litStatus(c.Get(i)) == Sat {
+				sum += c.Weight(i)
+			}
+		}
+		zzvp.Assert(sum >= c.Cardinality(), "all variables are assigned without conflict but a constraint is violated")
+	}
+	for _, c := range s.wl.origClauses {
+		check(c)
+	}
+	for _, c := range s.wl.learned {
+		check(c)
+	}
+}
+
+// vpMissedPropagation only records (does not assert) that unit propagation on
+// PB constraints is incomplete: that costs time, not correctness.
+func vpMissedPropagation(s *Solver) {
+	for _, c := range s.wl.origClauses {
+		slack := -c.Cardinality()
+		for i := 0; i < c.Len(); i++ {
+			if s.litStatus(c.Get(i)) != Unsat {
+				slack += c.Weight(i)
+			}
+		}
+		for i := 0; i < c.Len(); i++ {
+			if s.litStatus(c.Get(i)) == Indet && c.Weight(i) > slack {
+				zzvp.Reach("missed-propagation")
+				return
+			}
+		}
+	}
+}
+
+func vpConflictOK(s *Solver, confl *Clause) {
+	sum := 0
+	for i := 0; i < confl.Len(); i++ {
+		if s.litStatus(confl.Get(i)) != Unsat {
+			sum += confl.Weight(i)
+		}
+	}
+	zzvp.Assert(sum < confl.Cardinality(), "propagation returned a conflict constraint that is not falsified")
+}
+
+// vpDrive decides variables in every order and polarity until all are
+// assigned or a conflict is reported, checking the invariants on the way.
+func vpDrive(s *Solver, n, steps int) {
+	lvl := decLevel(2)
+	for step := 0; step < steps; step++ {
+		var free []int
+		for v := 0; v < len(s.model); v++ {
+			if s.model[v] == 0 {
+				free = append(free, v)
+			}
+		}
+		if len(free) == 0 {
+			vpAllSatisfied(s)
+			zzvp.Reach("total-assignment")
+			return
+		}
+		v := free[zzvp.Choose("decide-var", len(free))]
+		lit := Var(v).SignedLit(zzvp.Choose("decide-neg", 2) == 1)
+		confl := s.unifyLiteral(lit, lvl)
+		if confl != nil {
+			vpConflictOK(s, confl)
+			zzvp.Reach("conflict")
+			return
+		}
+		vpMissedPropagation(s)
+		lvl++
+	}
+	for v := 0; v < len(s.model); v++ {
+		if s.model[v] == 0 {
+			return
+		}
+	}
+	vpAllSatisfied(s)
+	zzvp.Reach("total-assignment")
+}
+
+// VP_C02_pb_fixpoint: several PB / cardinality constraints sharing variables
+// (structure from a list, coefficients, degrees and some signs symbolic), then
+// every sequence of up to `steps` decisions.
+func VP_C02_pb_fixpoint() {
+	zzvp.IntMode(true)
+	st := vpPairStructures[zzvp.Choose("structure", zzvp.Param("nstruct", len(vpPairStructures)))]
+	W := zzvp.Param("W", 3)
+	maxSym := zzvp.Param("maxsigns", 3)
+	card := zzvp.Param("card", 0) == 1 // cardinality front end (unit coefficients)
+	n, cnt := 0, 0
+	var pbs []PBConstr
+	var cds []CardConstr
+	var refs []vpRef
+	for _, vars := range st {
+		lits := make([]int, len(vars))
+		ws := make([]int, len(vars))
+		sum := 0
+		for i, v := range vars {
+			if v > n {
+				n = v
+			}
+			lits[i] = v
+			if cnt < maxSym {
+				lits[i] = zzvp.Ite(zzvp.Bool("flip"), -v, v)
+				cnt++
+			}
+			ws[i] = 1
+			if !card {
+				ws[i] = zzvp.Int("w", 1, W)
+			}
+			sum += ws[i]
+		}
+		d := zzvp.Int("d", 1, len(vars)*W)
+		zzvp.Assume(d <= sum)
+		refs = append(refs, vpRef{vpCopy(lits), vpCopy(ws), 0, d})
+		if card {
+			cds = append(cds, CardConstr{Lits: vpCopy(lits), AtLeast: d})
+		} else {
+			pbs = append(pbs, GtEq(vpCopy(lits), vpCopy(ws), d))
+		}
+	}
+	var pb *Problem
+	if card {
+		pb = ParseCardConstrs(cds)
+	} else {
+		pb = ParsePBConstrs(pbs)
+	}
+	if pb.Status == Unsat {
+		zzvp.Assert(zzvp.Not(vpRefsSat(refs, n)), "parse-time Unsat but the constraints are satisfiable")
+		return
+	}
+	if zzvp.Param("e2e", 0) == 1 {
+		vpSolveCheck(pb, refs, n) // end to end (with the C14 configuration when cp=1)
+		return
+	}
+	s := New(pb)
+	vpDrive(s, n, zzvp.Param("steps", n+1))
+}
